@@ -17,7 +17,7 @@ Extraction "model.ml"
   Domains.is_exc ISA.reg32 Domains.dom_entry Domains.ref_entry Domains.ref_step Domains.ref_run Domains.ref_run_init Domains.boundary_ref Domains.mes_ref Domains.is_mes_call Domains.dom_mes Domains.exec_dom Domains.data_ok
   PortSpec.pstep PortSpec.p_read PortSpec.p_out PortSpec.port0
   TimerSpec.states_ref TimerSpec.write_tcr_ref TimerSpec.side_ok TimerSpec.mkTmr
-  Run.escape RunRef.ref_run_t RunRef.tmr0
+  ISA.abs8 ISA.abs16 Run.escape RunRef.ref_run_t RunRef.tmr0
   ElfSpec.expected_of ElfSpec.candidates ElfSpec.wf_elf ElfSpec.img_end ElfSpec.ref_phdrs
   Price.price_ref Price.settings_of_area Price.on_chip_ram Price.area_of Price.dom_c19
   Z.of_nat Z.to_nat Z.add Z.mul Z.opp Z.div Z.modulo Z.eqb Z.ltb Z.leb Z.pow.
